@@ -421,10 +421,32 @@ fn one(rt: &tokio::runtime::Runtime, case: &Value, ty: Ty, root: &Path) -> Value
                        "foot": foots[ci], "foot_code": foot_codes[ci]}));
     }
     rec["cols"] = json!(cj);
-    // ---- statements (a panic is data)
-    rec["q1"] = run_sql(rt, &dir, "SELECT COUNT(*), COUNT(c), MIN(c), MAX(c) FROM t", 1);
-    rec["q2"] = run_sql(rt, &dir, "SELECT c, COUNT(*) FROM t GROUP BY c", 2);
-    rec["q3"] = run_sql(rt, &dir, "SELECT COUNT(*) FROM t x JOIN t y ON x.c = y.c AND x.d = y.d", 3);
+    // ---- statements (a panic is data).  A statement that panics or is refused is run again on a CONTROL copy of
+    // the same rows written WITHOUT any statistics: only an outcome the statistics cause is this property's business.
+    let stmts = [
+        ("q1", "SELECT COUNT(*), COUNT(c), MIN(c), MAX(c) FROM t"),
+        ("q2", "SELECT c, COUNT(*) FROM t GROUP BY c"),
+        ("q3", "SELECT COUNT(*) FROM t x JOIN t y ON x.c = y.c AND x.d = y.d"),
+    ];
+    let mut ctl_dir: Option<PathBuf> = None;
+    for (q, sql) in stmts {
+        let mut a = run_sql(rt, &dir, sql, 0);
+        if a["ok"] != 1 {
+            if ctl_dir.is_none() {
+                let cd = root.join(format!("c{id}_{}_ctl", ty.name()));
+                std::fs::create_dir_all(&cd).unwrap();
+                for fi in 0..nf {
+                    write_serialized(&cd.join(format!("f{}.parquet", fi + 1)), ty, [&cols[0].0[fi], &cols[1].0[fi]], [0, 0]);
+                }
+                ctl_dir = Some(cd);
+            }
+            a["ctl"] = run_sql(rt, ctl_dir.as_ref().unwrap(), sql, 0);
+        }
+        rec[q] = a;
+    }
+    if let Some(cd) = ctl_dir {
+        let _ = std::fs::remove_dir_all(&cd);
+    }
     let _ = std::fs::remove_dir_all(&dir);
     rec
 }
